@@ -240,6 +240,27 @@ pub fn pair_ret_fake(x: u64, y: u64) -> (u64, u64) {
     (y.wrapping_add(1), x.wrapping_sub(1))
 }
 
+// a by-value aggregate larger than 16 bytes through the C ABI (copied onto the stack by the caller)
+#[derive(Clone, Copy, PartialEq, Debug)]
+#[repr(C)]
+pub struct Triple {
+    pub a: u64,
+    pub b: u64,
+    pub c: u64,
+}
+fn mix3(t: Triple, k: u64) -> u64 {
+    t.a ^ t.b.rotate_left(7) ^ t.c.rotate_left(13) ^ k.rotate_left(29)
+}
+#[inline(never)]
+pub extern "C" fn agg_c(t: Triple, k: u64) -> u64 {
+    std::hint::black_box((t, k));
+    1
+}
+#[inline(never)]
+pub extern "C" fn agg_c_fake(t: Triple, k: u64) -> u64 {
+    mix3(t, k)
+}
+
 fn run_shapes(sc: &Value) {
     panics::install_hook();
     let n = sc.get("n").and_then(|x| x.as_u64()).unwrap_or(100);
@@ -256,8 +277,10 @@ fn run_shapes(sc: &Value) {
             .will_execute_raw(injectorpp::func!(many_args_fake, fn(u64, f64, u32, f32, i64, f64, u8, u64, f64, i32, u64, f64, u16, u64) -> u64));
         inj.when_called(injectorpp::func!(wide_ret, fn(u64, u64) -> Wide)).will_execute_raw(injectorpp::func!(wide_ret_fake, fn(u64, u64) -> Wide));
         inj.when_called(injectorpp::func!(pair_ret, fn(u64, u64) -> (u64, u64))).will_execute_raw(injectorpp::func!(pair_ret_fake, fn(u64, u64) -> (u64, u64)));
+        inj.when_called(injectorpp::func!(agg_c, extern "C" fn(Triple, u64) -> u64)).will_execute_raw(injectorpp::func!(agg_c_fake, extern "C" fn(Triple, u64) -> u64));
     });
     let (mut ok_many, mut ok_wide, mut ok_pair) = (0u64, 0u64, 0u64);
+    let mut ok_agg = 0u64;
     for _ in 0..n {
         let (a, b, c, d, e, f, g, h, i, j, k, l, m, nn) = (next(), f64::from_bits(next() >> 2), next() as u32, f32::from_bits((next() >> 34) as u32), next() as i64,
             f64::from_bits(next() >> 2), next() as u8, next(), f64::from_bits(next() >> 2), next() as i32, next(), f64::from_bits(next() >> 2), next() as u16, next());
@@ -273,9 +296,33 @@ fn run_shapes(sc: &Value) {
         if std::hint::black_box(pair_ret as fn(u64, u64) -> (u64, u64))(s1, s2) == pair_ret_fake(s1, s2) {
             ok_pair += 1;
         }
+        let t = Triple { a: next(), b: next(), c: next() };
+        if std::hint::black_box(agg_c as extern "C" fn(Triple, u64) -> u64)(t, s1) == mix3(t, s1) {
+            ok_agg += 1;
+        }
     }
     in_lib(|| drop(inj));
-    emit(json!({"ev":"Shapes","n":n,"many_args_ok":ok_many,"wide_ret_ok":ok_wide,"pair_ret_ok":ok_pair}));
+    // a replacement of the other ABI for the same function: whether the library admits the pairing is the gate's business
+    // (C09); IF it does, the replacement must still receive what the caller supplied
+    let decoy = Triple { a: 11, b: 22, c: 33 };
+    let cross = match std::panic::catch_unwind(std::panic::AssertUnwindSafe(|| {
+        let mut inj2 = in_lib(InjectorPP::new);
+        in_lib(|| {
+            inj2.when_called(injectorpp::func!(agg_c, extern "C" fn(Triple, u64) -> u64))
+                .will_execute_raw(injectorpp::closure!(|t: Triple, k: u64| -> u64 { mix3(t, k) }, fn(Triple, u64) -> u64))
+        });
+        let t = Triple { a: 1, b: 2, c: 3 };
+        // k is the address of readable memory, so that a replacement looking for its aggregate behind the wrong register reads a decoy
+        let k = &decoy as *const Triple as u64;
+        let got = std::hint::black_box(agg_c as extern "C" fn(Triple, u64) -> u64)(t, k);
+        in_lib(|| drop(inj2));
+        got == mix3(t, k)
+    })) {
+        Err(_) => "refused",
+        Ok(true) => "intact",
+        Ok(false) => "garbled",
+    };
+    emit(json!({"ev":"Shapes","n":n,"many_args_ok":ok_many,"wide_ret_ok":ok_wide,"pair_ret_ok":ok_pair,"agg_c_ok":ok_agg,"cross_abi":cross}));
 }
 
 pub fn run(script: &str, out: &str) {
